@@ -54,6 +54,8 @@ fn main() {
         "workers-scenario" => workers::cmd_scenario(&args),
         "workers-live" => workers::cmd_live(&args),
         "probe" => probe::cmd_probe(&args),
+        "probe-f21" => probe::cmd_probe_f21(&args),
+        "powerloss-in-recovery" => probe::cmd_probe_f21(&args),
         "probe-f4" => probe::cmd_probe_f4(&args),
         "probe-f9" => probe::cmd_probe_f9(&args),
         "mtree-replay" => mtree::cmd_replay(&args),
